@@ -139,13 +139,9 @@ CLAIMS = {
          "kinds) and the lexer/parser span correspondence of C11, not by a theorem about the LALRPOP automaton. Multi-line spans "
          "are covered by the correspondence only. FileContents::range/line (unused by diagnostics) return byte offsets, noted in DESIGN.md.",
          "Lean 4 proof (binary-search loop invariant, line-table characterisation, UTF-8 boundary lemma) + differential oracle"),
- "C15": ("Lean theorems Yo.C15_line_no_panic / C15_load_no_panic (for every byte string - short, empty, odd digit counts, non-hex, "
-         "non-ASCII, invalid UTF-8 - none of the loader's string slicings can panic: the model uses Rust's own is_char_boundary "
-         "rule and the panicking index form), hexLoop_no_panic (fuel), C15_empty_refused. That exactly the listed bytes are "
-         "loaded and malformed files refused is the differential oracle against Spec.classify/Spec.image on valid and "
-         "byte-level-damaged listings.",
-         "The theorem loadLine = Spec.classify (exact image) is future work; it is covered differentially.",
-         "Lean 4 proof (panic-freedom of byte slicing) + differential oracle on valid and malformed listings"),
+ "C15": ("Lean theorems C15_line (for every valid-UTF-8 line, load_line_y86 classifies and loads it exactly as the format specification Spec.classify says: a data line stores its byte pairs at consecutive addresses from its address, a line without '|' or a comment line changes nothing, anything else is refused) and C15_image (for every list of valid-UTF-8 lines the loader refuses exactly when a line is malformed or there is no line, and otherwise every address holds what the listing denotes: later lines over earlier ones, 0 elsewhere; overlay_spec: byte k of a data line is at address+k, all other addresses untouched), C15_invalid_utf8 (a line that is not UTF-8 is an I/O error), C15_line_no_panic / C15_load_no_panic (str::get / slicing never panics). The proofs use that in valid UTF-8 the position after an ASCII byte is a character boundary (validUtf8_boundary), so str::get on the fixed columns agrees with plain byte comparison.",
+         'BufRead::lines (splitting at LF, dropping CR) is modelled by splitLines and tied by the S-YO streams.',
+         'Lean 4 proof (panic-freedom of byte slicing) + differential oracle on valid and malformed listings'),
  "C16": ("The real dump_y86_str text is compared byte for byte with the Lean model Dump.state on random machine states (registers "
          "to 2^64-1, sparse/unaligned/top-of-address-space memory, 0-6 banks with long and non-ASCII names forcing wraps, all "
          "banners), and read back by the format reader Spec.DumpFormat.parse into exactly the state (oracle). Theorems so far: "
